@@ -1,3 +1,5 @@
+import SqlProofs.DelimSafe
+import SqlProofs.GroupLeavesStrict
 import SqlProofs.AlignComments
 import SqlModel.Grouping.MatchSpec
 import SqlModel.Sexp
@@ -61,5 +63,12 @@ theorem align_comments_keeps_brackets : type_of% @Sql.align_pass_brackets := @Sq
 /-- end to end (decomposition at `group_begin` / `align_comments`): the six classes are kept by every later pass; across `align_comments`
 they may only gain trailing comments — under `clL` of its input (kept by `group_comments`; for passes 2–22 checked by the oracle) -/
 theorem brackets_end_with_closer_modulo_comments : type_of% @Sql.groupWith_brackets_comments := @Sql.groupWith_brackets_comments
+
+/-- **end to end, no side condition**: for every flat statement the bracket/block groups of the final tree are those of the tree after
+the six matching passes — same classes in the same order, same leaves (up to `Wildcard → Operator`), followed only by comment/whitespace
+leaves (what `align_comments` attaches) -/
+theorem brackets_final_total : type_of% @Sql.brackets_end_with_closer_modulo_comments_total := @Sql.brackets_end_with_closer_modulo_comments_total
+/-- under the decidable `DelimSafe` the leaf sequence of every bracket/block node is `opener :: … ++ closer :: comments` -/
+theorem delimiters_kept_leafwise : type_of% @Sql.delims_kept_leafwise := @Sql.delims_kept_leafwise
 
 end Sql.C09
